@@ -35,7 +35,7 @@ var notReached = []string{
 var commonAssumptions = []string{
 	"seeded sampling: a clean batch is evidence over the counted cases, not a proof",
 	"directory operations (create, rename, remove) are durable in program order",
-	"the wall clock strictly increases between two API calls",
+	"the wall clock strictly increases between two API calls of one process lifetime (across a crash it may be stepped back: injected in C03/C04)",
 }
 
 // Metas describes each property's check.
@@ -62,7 +62,7 @@ func init() {
 		"power loss loses a not-yet-synced tail of a file from the end only (no reordering inside the tail, no sector garbage)")
 	meta("C04", "fault_enumeration", crashTech+"a batch is one mutation of the prefix oracle, so a partial batch equals no allowed state; 30% of the runs: batches committed by several concurrent clients (incl. next to a Merge), each batch one atomic step of the order searched for",
 		NontrivialRuleText["C04"], 500, 6000,
-		[]string{"fault_process_crash_images", "fault_power_loss_images", "images_ok", "batches", "sync_batches", "rotations", "cc_batches", "cc_merges"},
+		[]string{"fault_process_crash_images", "fault_power_loss_images", "images_ok", "batches", "sync_batches", "rotations", "cc_batches", "cc_merges", "fault_clock_stepped_back"},
 		"power loss loses a not-yet-synced tail of a file from the end only")
 	meta("C07", "fault_enumeration", crashTech+"two levels deep for Merge and adoption: every position of the recovery Open is crashed again, then a clean Open; after recovering from a crash inside Merge the history continues with deletes, overwrites, a second Merge and two restarts; half of the runs: a Merge racing concurrent writers under the seeded scheduler, crashed at every journal position",
 		NontrivialRuleText["C07"], 500, 8000,
